@@ -159,7 +159,7 @@ class RecRng:
 
     def choice(self, a, size=None, replace=True, p=None, **kw):
         idx = self._g.choice(a, size=size, replace=replace, p=p, **kw)
-        self.choices.append({"a": int(a) if np.isscalar(a) else len(a), "size": size,
+        self.choices.append({"a": int(a) if np.isscalar(a) else len(a), "size": size, "replace": bool(replace),
                              "p": None if p is None else np.asarray(p, dtype=float).copy(), "idx": np.asarray(idx).copy()})
         return idx
 
